@@ -194,6 +194,21 @@ def locate(repo_root, file, fn, block=None, ordinal=None, _cache={}):
     return r
 
 
+def locate_closure(rec, ordinal=1):
+    """R13: inside an already located fn record, the block body of the `ordinal`-th closure written `[move] |params| { .. }`.
+    Returns a record like locate(): body = the closure's `{ .. }` block, sig = 'closure |params| in <fn sig>'."""
+    mb = rec['masked_body']
+    hits = list(re.finditer(r'(?:move\s+)?\|([^|]*)\|\s*\{', mb))
+    if len(hits) < ordinal:
+        raise LostAnchor('closure #%d not found (%d closures with a block body)' % (ordinal, len(hits)))
+    m = hits[ordinal - 1]
+    o = m.end() - 1
+    c = match_brace(mb, o)
+    body = rec['body']
+    return {'sig': 'closure |%s| in %s' % (norm_ws(m.group(1)), norm_ws(rec['sig'])), 'body': body[o:c + 1], 'masked_body': mb[o:c + 1],
+            'line': rec['line'] + body.count('\n', 0, o), 'file': rec['file']}
+
+
 def locate_struct(repo_root, file, name, kw='struct'):
     """Return the `{ ... }` field block of `struct name` / `enum name`."""
     path = repo_root.rstrip('/') + '/' + file
